@@ -5,7 +5,7 @@
   `a <ast> <text hex>`                  Pattern API on a hand-built syntax tree (`from_ast*`), encoding below
   `k <subject hex> <item> …`            shell leg: `st 7; case …`; item = `<b|f|c><e|z|s>:<alt>,<alt>…`
                                         (`;;` `;&` `;;&`), alt = `v<hex>` `$N` | `q<hex>` `"$N"` | `l<hex>` text in the
-                                        script | `s<hex>` `'text'` | `m<hex>_<hex>` `"$N"$M`
+                                        script | `s<hex>` `'text'` | `m<hex>_<hex>` `"$N"$M` | `w<word>` a pattern word (below)
   `w <subject hex> <word>`              shell leg: `case $1 in (WORD) …;; (*) …` and `${1#WORD}` `##` `%` `%%` for a pattern word
                                         built from every quoting mechanism; word = units joined by `/`:
                                         `L<hex>` unquoted text | `B<hex>` `\c` | `S<hex>` `'…'` | `P<hex>` `${N}` with that value |
@@ -178,6 +178,64 @@ def observeShell (subj q1 p1 q2 p2 : List Char) : String × String :=
       s!"=arm={sarm} T={",".intercalate st} A={"/".intercalate sa}"
   (obs, spec)
 
+/-! pattern words (`w` cases): the encoding of the header comment -/
+
+def litsW (cs : List Char) (rest : PWord) : PWord := cs.foldr (fun c w => .cons (.unq (.lit c)) w) rest
+def litsT (cs : List Char) (rest : PText) : PText := cs.foldr (fun c t => .cons (.lit c) t) rest
+
+def oneChar (h : List Char) : Option Char := do
+  match ← decChars (String.ofList h) with
+  | [c] => some c
+  | _ => none
+
+/-- `lvl` 0: the word of the case (separators `/` and `;`); 1: the word of a `${1+…}` (separators `+` and `~`);
+    an `A`/`a` unit is only accepted at level 0 -/
+def wordSep (lvl : Nat) : String := if lvl = 0 then "/" else "+"
+def textSep (lvl : Nat) : String := if lvl = 0 then ";" else "~"
+
+def appendW : PWord → PWord → PWord
+  | .nil, r => r
+  | .cons u w, r => .cons u (appendW w r)
+
+mutual
+  def parseTUnit (fuel : Nat) (lvl : Nat) (t : String) (rest : PText) : Option PText :=
+    match fuel with
+    | 0 => none
+    | fuel + 1 =>
+      match t.toList with
+      | 'l' :: h => do pure (litsT (← decChars (String.ofList h)) rest)
+      | 'b' :: h => do pure (.cons (.bs (← oneChar h)) rest)
+      | 'p' :: h => do pure (.cons (.param (← decChars (String.ofList h))) rest)
+      | 'a' :: h => if lvl = 0 then do pure (.cons (.alt (← parseWordL fuel 1 (String.ofList h))) rest) else none
+      | _ => none
+  def parseTextL (fuel : Nat) (lvl : Nat) (s : String) : Option PText :=
+    match fuel with
+    | 0 => none
+    | fuel + 1 =>
+      if s.isEmpty then some .nil
+      else (s.splitOn (textSep lvl)).foldr (fun t acc => acc.bind (parseTUnit fuel lvl t)) (some .nil)
+  def parseWUnit (fuel : Nat) (lvl : Nat) (t : String) (rest : PWord) : Option PWord :=
+    match fuel with
+    | 0 => none
+    | fuel + 1 =>
+      match t.toList with
+      | 'L' :: h => do pure (litsW (← decChars (String.ofList h)) rest)
+      | 'B' :: h => do pure (.cons (.unq (.bs (← oneChar h))) rest)
+      | 'S' :: h => do pure (.cons (.sq (← decChars (String.ofList h))) rest)
+      | 'P' :: h => do pure (.cons (.unq (.param (← decChars (String.ofList h)))) rest)
+      | 'A' :: h => if lvl = 0 then do pure (.cons (.unq (.alt (← parseWordL fuel 1 (String.ofList h)))) rest) else none
+      | 'D' :: h => do pure (.cons (.dq (← parseTextL fuel lvl (String.ofList h))) rest)
+      | _ => none
+  def parseWordL (fuel : Nat) (lvl : Nat) (s : String) : Option PWord :=
+    match fuel with
+    | 0 => none
+    | fuel + 1 =>
+      if s.isEmpty then some .nil
+      else (s.splitOn (wordSep lvl)).foldr (fun t acc => acc.bind (parseWUnit fuel lvl t)) (some .nil)
+end
+
+def parseWord (s : String) : Option PWord := parseWordL 8 0 s
+
 /-- pattern characters of one `case` alternative, by the way it is written in the script -/
 def altChars (t : String) : Option (List PatternChar) :=
   match t.toList with
@@ -186,6 +244,7 @@ def altChars (t : String) : Option (List PatternChar) :=
   | 's' :: h => do pure ((← decChars (String.ofList h)).map .literal)
   -- unquoted text in the script: the lexer makes a backslash quote the next character
   | 'l' :: h => do pure (withEscape (← decChars (String.ofList h)))
+  | 'w' :: h => do pure (patternOfWord (← parseWord (String.ofList h)))
   | 'm' :: h =>
     match (String.ofList h).splitOn "_" with
     | [a, b] => do pure (shellPattern (← decChars a) (← decChars b))
@@ -306,64 +365,6 @@ def parseAstAtom (t : String) : Option Atom :=
 def parseAst (t : String) : Option Ast :=
   if t == "-" then some [] else (t.splitOn ",").mapM parseAstAtom
 
-/-! pattern words (`w` cases): the encoding of the header comment -/
-
-def litsW (cs : List Char) (rest : PWord) : PWord := cs.foldr (fun c w => .cons (.unq (.lit c)) w) rest
-def litsT (cs : List Char) (rest : PText) : PText := cs.foldr (fun c t => .cons (.lit c) t) rest
-
-def oneChar (h : List Char) : Option Char := do
-  match ← decChars (String.ofList h) with
-  | [c] => some c
-  | _ => none
-
-/-- `lvl` 0: the word of the case (separators `/` and `;`); 1: the word of a `${1+…}` (separators `+` and `~`);
-    an `A`/`a` unit is only accepted at level 0 -/
-def wordSep (lvl : Nat) : String := if lvl = 0 then "/" else "+"
-def textSep (lvl : Nat) : String := if lvl = 0 then ";" else "~"
-
-def appendW : PWord → PWord → PWord
-  | .nil, r => r
-  | .cons u w, r => .cons u (appendW w r)
-
-mutual
-  def parseTUnit (fuel : Nat) (lvl : Nat) (t : String) (rest : PText) : Option PText :=
-    match fuel with
-    | 0 => none
-    | fuel + 1 =>
-      match t.toList with
-      | 'l' :: h => do pure (litsT (← decChars (String.ofList h)) rest)
-      | 'b' :: h => do pure (.cons (.bs (← oneChar h)) rest)
-      | 'p' :: h => do pure (.cons (.param (← decChars (String.ofList h))) rest)
-      | 'a' :: h => if lvl = 0 then do pure (.cons (.alt (← parseWordL fuel 1 (String.ofList h))) rest) else none
-      | _ => none
-  def parseTextL (fuel : Nat) (lvl : Nat) (s : String) : Option PText :=
-    match fuel with
-    | 0 => none
-    | fuel + 1 =>
-      if s.isEmpty then some .nil
-      else (s.splitOn (textSep lvl)).foldr (fun t acc => acc.bind (parseTUnit fuel lvl t)) (some .nil)
-  def parseWUnit (fuel : Nat) (lvl : Nat) (t : String) (rest : PWord) : Option PWord :=
-    match fuel with
-    | 0 => none
-    | fuel + 1 =>
-      match t.toList with
-      | 'L' :: h => do pure (litsW (← decChars (String.ofList h)) rest)
-      | 'B' :: h => do pure (.cons (.unq (.bs (← oneChar h))) rest)
-      | 'S' :: h => do pure (.cons (.sq (← decChars (String.ofList h))) rest)
-      | 'P' :: h => do pure (.cons (.unq (.param (← decChars (String.ofList h)))) rest)
-      | 'A' :: h => if lvl = 0 then do pure (.cons (.unq (.alt (← parseWordL fuel 1 (String.ofList h)))) rest) else none
-      | 'D' :: h => do pure (.cons (.dq (← parseTextL fuel lvl (String.ofList h))) rest)
-      | _ => none
-  def parseWordL (fuel : Nat) (lvl : Nat) (s : String) : Option PWord :=
-    match fuel with
-    | 0 => none
-    | fuel + 1 =>
-      if s.isEmpty then some .nil
-      else (s.splitOn (wordSep lvl)).foldr (fun t acc => acc.bind (parseWUnit fuel lvl t)) (some .nil)
-end
-
-def parseWord (s : String) : Option PWord := parseWordL 8 0 s
-
 def hexNat (n : Nat) : String := String.ofList (Nat.toDigits 16 n)
 
 /-- the attributed characters as the harness prints those of the real `expand_word_attr` -/
@@ -372,13 +373,63 @@ def showAttrs (cs : List PAttrChar) : String :=
     let o := match c.origin with | .literal => "L" | .hardExpansion => "H" | .softExpansion => "S"
     s!"{hexNat c.value.toNat}{o}{bit c.isQuoted}{bit c.isQuoting}")
 
+mutual
+  /-- the harness's `text_safe`: the word reads back as the same tree in the lexer's TEXT context -/
+  def tuSafe : PTextUnit → Bool
+    | .lit _ => true
+    | .bs _ => true
+    | .param _ => true
+    | .alt w => wSafe w
+  def tSafe : PText → Bool
+    | .nil => true
+    | .cons u t => tuSafe u && tSafe t
+  def wuSafe : PWordUnit → Bool
+    | .unq (.bs c) => ['$', '`', '"', '\\', '}'].contains c
+    | .unq (.alt w) => wSafe w
+    | .unq _ => true
+    | .sq _ => false
+    | .dq t => tSafe t
+  def wSafe : PWord → Bool
+    | .nil => true
+    | .cons u w => wuSafe u && wSafe w
+end
+
+mutual
+  /-- the values of the word's `${N}` units in the order the harness numbers them (`$2`, `$3`, …) -/
+  def tuParams : PTextUnit → List (List Char)
+    | .param v => [v]
+    | .alt w => wParams w
+    | _ => []
+  def tParams : PText → List (List Char)
+    | .nil => []
+    | .cons u t => tuParams u ++ tParams t
+  def wuParams : PWordUnit → List (List Char)
+    | .unq u => tuParams u
+    | .sq _ => []
+    | .dq t => tParams t
+  def wParams : PWord → List (List Char)
+    | .nil => []
+    | .cons u w => wuParams u ++ wParams w
+end
+
 def observeWord (subj : List Char) (w : PWord) : String × String :=
   let scalarOf : Value → List Char
     | .scalar v => v
     | .array _ => []
-  let arm := if itemMatches subj [patternOfWord w] then "1" else "0"
+  -- the `case` arm goes through the index loop `applyEscapesIdx` (the Rust loop as written), the trims through the
+  -- recursion inside `trimApplyValue`; `applyEscapes_is_index_loop` proves them equal
+  let arm := if itemMatches subj [toPatternChars (applyEscapesIdx (wordAttrs w))] then "1" else "0"
   let t := trims.map fun (sd, ln) => encChars (scalarOf (trimApplyValue sd ln (wordAttrs w) (.scalar subj)))
-  let obs := s!"arm={arm} T={",".intercalate t} X={showAttrs w.expand}"
+  -- the Array arm of `trim::apply`: every positional parameter (subject, then the values of the word's `${N}`)
+  let arrayOf : Value → List (List Char)
+    | .array vs => vs
+    | .scalar _ => []
+  let arr := subj :: wParams w
+  let arrays := wSafe w
+  let a := trims.map fun (sd, ln) =>
+    ",".intercalate ((arrayOf (trimApplyValue sd ln (wordAttrs w) (.array arr))).map encChars)
+  let obs := if arrays then s!"arm={arm} T={",".intercalate t} A={"/".intercalate a} X={showAttrs w.expand}"
+    else s!"arm={arm} T={",".intercalate t} X={showAttrs w.expand}"
   -- Spec: the word's pattern characters by XCU 2.13.1 (`specWordChars`), the notation by the grammar, the match by
   -- the glob semantics, the trims by `specTrim`
   let ast := specParse (specWordChars w)
@@ -391,7 +442,10 @@ def observeWord (subj : List Char) (w : PWord) : String × String :=
       else match ts.find? (fun (sd, ln) =>
           specTrim sd ln ast subj != scalarOf (trimApplyValue sd ln (wordAttrs w) (.scalar subj))) with
         | some (sd, ln) => s!"FAIL:trim-{repr sd}-{repr ln}"
-        | none => "ok"
+        | none =>
+          if arrays && ts.any (fun (sd, ln) =>
+              arr.map (specTrim sd ln ast) != arrayOf (trimApplyValue sd ln (wordAttrs w) (.array arr)))
+          then "FAIL:array-trim" else "ok"
   (obs, spec)
 
 def runLine (line : String) : String :=
